@@ -606,11 +606,12 @@ theorem cacheInv_init (s : SchemaD) : CacheInv { schema := s } := by
 /-! #### `_replace_types_and_directives` -/
 
 /-- the T3 fix is in the tree: `busted_cache = busted_cache or …` -/
-theorem replace_accumulates : replaceAccumulates = true := by decide
+private theorem replace_accumulates : replaceAccumulates = true := by decide
 /-- fix C13-T3b is in the tree: refusals happen before the first mutation -/
-theorem replace_atomic : replaceAtomic = true := by decide
-/-- fix C13-T3b is in the tree: replaced directives bust the caches -/
-theorem replace_directives_bust : replaceDirectivesBust = true := by decide
+private theorem replace_atomic : replaceAtomic = true := by decide
+/-- fix C13-T3b is in the tree: replaced directives bust the caches (flag checks like this one are `private`: they are
+    not property theorems; a tree without the fix makes the `decide` fail and the module is reported as not building) -/
+private theorem replace_directives_bust : replaceDirectivesBust = true := by decide
 
 /-- well-formed request (a Python dict keyed by the name of the new object) with honest identity flags:
     `same = true` means the new object IS what is registered under that name. -/
@@ -631,7 +632,7 @@ def HonestOp (st : CacheState) : Op → Prop
   | .replaceTypes es ds _ => HonestTypeEntries st.schema.types es ∧ HonestDirEntries st.schema.directives ds
   /- a structural plain assignment keeps the invariant when `validate()` can see it (`seen`), or when it is made
      before any verdict was cached; the other case is `cache_unsound_unseen_structural_setter` -/
-  | .assignStructure _ seen => seen = true ∨ st.isValid = false
+  | .assignStructure _ seen => cfgCacheTracksStructure = true ∨ seen = true ∨ st.isValid = false
   | _ => True
 
 private theorem map_replace_id {α} (name : α → String) (xs : List α) (n : String) (new : α)
@@ -966,9 +967,10 @@ theorem step_inv (st : CacheState) (op : Op) (hh : HonestOp st op) (h : CacheInv
   | assignResolver lvl tn fn r sm => exact step_inv_resolver st _ rfl h
   | assignArguments tn fn args => exact step_inv_resolver st _ rfl h
   | assignStructure s' seen =>
-    simp only [step]
+    simp only [step, assignStructureStep]
     intro hv
-    rcases hh with hs | hs
+    rcases hh with hs | hs | hs
+    · rw [hs] at hv; simp at hv
     · rw [hs] at hv; simp at hv
     · rw [hs] at hv; simp at hv
 
@@ -990,13 +992,13 @@ theorem cache_sound_all (st : CacheState) (h : CacheInv st) (ops : List Op) (hh 
 
 /-- fix C13-HH1 is in the tree: the cached verdict stands only for the resolver callables it was computed with
     (so `cache_sound` / `cache_sound_all` cover PLAIN ASSIGNMENT of resolvers at the schema, type and field level) -/
-theorem cache_tracks_assignments : cfgCacheTracksAssignments = true := by decide
+private theorem cache_tracks_assignments : cfgCacheTracksAssignments = true := by decide
 /-- fix C13-HH2 is in the tree: the signature that is validated is the one of the callable the executor calls -/
-theorem signature_of_the_callable : cfgOuterSignature = true := by decide
+private theorem signature_of_the_callable : cfgOuterSignature = true := by decide
 /-- fix C13-HHH3 is in the tree: the cached verdict also stands for the arguments of every field (plain assignment
     `field.arguments = [...]` makes `validate()` recompute). Types, names and members edited in place are NOT tracked:
     the statement speaks of registering / reassigning resolvers (see ASSUMPTIONS). -/
-theorem cache_tracks_arguments : cfgCacheTracksArguments = true := by decide
+private theorem cache_tracks_arguments : cfgCacheTracksArguments = true := by decide
 
 /-! #### the legacy variants of `_replace_types_and_directives` (code that no longer exists) -/
 
@@ -1044,42 +1046,52 @@ theorem legacy_directive_unsound :
     whatever it does to the schema -/
 theorem structural_setter_seen_sound (st : CacheState) (s' : SchemaD) :
     CacheInv (step st (.assignStructure s' true)).1 := by
-  simp only [step]; intro hv; simp at hv
+  simp only [step, assignStructureStep]; intro hv; simp at hv
 
-/-- **cache soundness over EVERY public mutator** (kept visible; false on today's tree): replace requests honest about
-    identity, everything else unrestricted -/
+/-- **cache soundness over EVERY public mutator**: replace requests honest about identity, everything else
+    unrestricted - structural plain assignments included, seen by the probe or not -/
 def CacheSoundAllMutators : Prop :=
   ∀ (st : CacheState), CacheInv st → ∀ op : Op,
     (∀ es ds hl, op = .replaceTypes es ds hl → HonestOp st op) → CacheInv (step st op).1
 
+/- `cache_sound_all_mutators` (FULL since fix C13-S12) is in Props/C13_s12.lean: it needs the flag
+   `cfgCacheTracksStructure` to be `true`, i.e. proposed_fixes/C13-S12.patch in the tree. -/
+
 private def wSchemaBad : SchemaD := { types := [wInt, wQuery, { wA with interfaces := ["Query"] }] }
 
-/-- **Refutation.** After `validate()`, `schema.types["A"].interfaces = [Query]` (an object type "implementing" an
-    object type; equally `field.type = <input type>`, `union.types = []`, `input_type.fields = []`,
-    `input_field.type = <object type>`, `type.name = "__T"`, `schema.query_type = <interface>`): no resolver, no
-    argument object and no count changes, `_current_resolvers()` is the same tuple, and `validate()` keeps returning
-    although the schema is now invalid. Outside the property's statement ("recomputed after resolvers are
-    reassigned"); recorded as a limit of the cache (ASSUMPTIONS of corr/C13.py, evidence key
-    `outside_statement_stale_after_structural_setter`). -/
+/-- the machine of the tree BEFORE fix C13-S12: the verdict is reset only by the assignments the comparison sees -/
+def stepBeforeS12 (st : CacheState) : Op → CacheState × Outcome
+  | .assignStructure s' seen => assignStructureStep false st s' seen
+  | op => step st op
+
+def CacheSoundAllMutatorsBeforeS12 : Prop :=
+  ∀ (st : CacheState), CacheInv st → ∀ op : Op,
+    (∀ es ds hl, op = .replaceTypes es ds hl → HonestOp st op) → CacheInv (stepBeforeS12 st op).1
+
+/-- **Refutation, LEGACY (the tree before fix C13-S12).** After `validate()`, `schema.types["A"].interfaces = [Query]`
+    (an object type "implementing" an object type; equally `field.type = <input type>`, `union.types = []`,
+    `input_type.fields = []`, `input_field.type = <object type>`, `type.name = "__T"`,
+    `schema.query_type = <interface>`): no resolver, no argument object and no count changed, `_current_resolvers()`
+    was the same tuple, and `validate()` kept returning although the schema was invalid. Outside the property's
+    statement ("recomputed after resolvers are reassigned"); repaired by proposed_fixes/C13-S12.patch. -/
 theorem cache_unsound_unseen_structural_setter :
-    CacheInv wState ∧ wState.isValid = true ∧ ¬ CacheInv (step wState (.assignStructure wSchemaBad false)).1 := by
+    CacheInv wState ∧ wState.isValid = true ∧
+      ¬ CacheInv (stepBeforeS12 wState (.assignStructure wSchemaBad false)).1 := by
   refine ⟨wState_inv, rfl, ?_⟩
   intro h
   have := h (by decide)
   rw [← validate_iff] at this
   exact absurd this (by decide)
 
-theorem cache_sound_all_mutators_fails_today : ¬ CacheSoundAllMutators := by
+/-- (name kept: "today" was the tree before fix C13-S12) the statement over every mutator failed there -/
+theorem cache_sound_all_mutators_fails_today : ¬ CacheSoundAllMutatorsBeforeS12 := by
   intro h
   exact cache_unsound_unseen_structural_setter.2.2
     (h wState wState_inv (.assignStructure wSchemaBad false) (fun es ds hl e => by cases e))
 
-/-- ...and what remains true of every history over ALL mutators: `cache_sound_all` with `HonestRun`, whose clause for a
-    structural assignment is "seen by the comparison, or made while no verdict is cached". Non-vacuity: a seen retyping
-    after a cached verdict, followed by `validate()`, recomputes and rejects. -/
 example : HonestRun wState [.assignStructure wSchemaBad true, .validate]
     ∧ runTrace wState [.assignStructure wSchemaBad true, .validate] = [.ok, .validationError] := by
-  refine ⟨⟨Or.inl rfl, trivial, trivial⟩, by decide⟩
+  refine ⟨⟨Or.inr (Or.inl rfl), trivial, trivial⟩, by decide⟩
 
 /-! ### independence of the order of types -/
 
@@ -1187,7 +1199,7 @@ theorem reports_all (s : SchemaD) (rv : Bool) :
 /-! ### names -/
 
 /-- the pattern is anchored with `\Z` (fix S7): no trailing-newline loophole -/
-theorem name_anchor_strict : nameDollarQuirk = false := by decide
+private theorem name_anchor_strict : nameDollarQuirk = false := by decide
 
 private theorem nameStart_spec (c : Nat) : nameStart c = true ↔ (c = 95 ∨ isLetter c = true) := by
   simp [nameStart, isLetter]; omega
@@ -1226,7 +1238,7 @@ theorem model_rules_extracted :
     (Rule.all.all fun r => (ruleFormats.map (·.1)).contains r.id) = true := by decide
 
 /-- the proposed fix C13-S4-S6 is in the tree the theorems were checked against -/
-theorem fix_present : fixS4S6 = true := by decide
+private theorem fix_present : fixS4S6 = true := by decide
 
 /-! ### defect S4 (before the fix) and non-vacuity -/
 
